@@ -102,7 +102,7 @@ pub fn run(a: &Args) {
             heapless::Vec<u32, 5>, heapless::Vec<(u16, bool), 3>, heapless::Vec<Option<i64>, 130>, heapless::Vec<heapless::Vec<u8, 2>, 2>,
             heapless::String<0>, heapless::String<1>, heapless::String<127>, heapless::String<128>, heapless::String<16383>, heapless::String<16384>,
             UnitS, NewS, TupS, NamedS, EmptyS, Gen1<u8>, Gen1<Option<char>>, Gen1<NamedS>, Nested,
-            E1, E2, Mixed<u8>, Mixed<i64>, Mixed<NamedS>, Mixed<Mixed<u16>>, E127, E128, E129,
+            E1, E2, Mixed<u8>, Mixed<i64>, Mixed<NamedS>, Mixed<Mixed<u16>>, Level, Packet, E127, E128, E129,
             Option<E2>, [Mixed<u8>; 2], (E1, E128), heapless::Vec<E129, 4>,
         );
     }
